@@ -64,3 +64,8 @@ Definition stmt_three_opt_exact : Prop :=
    out-of-range index), for every cycle length including 0, 1, 2 *)
 Definition stmt_three_opt_indices_ok : Prop :=
   forall n i j k, In (i, j, k) (three_opt_indices n) -> (i < j)%nat /\ (j < k)%nat /\ (k < n)%nat.
+
+(* the greedy construction used by Schedule (recompute_transitions, empty): for duplicate-free vehicle lists its
+   result satisfies the invariant *)
+Definition stmt_new_fast_inv : Prop :=
+  forall nw vehicles tours t, NoDup vehicles -> new_fast nw vehicles tours = Ok t -> TInv nw tours vehicles t.
